@@ -294,7 +294,16 @@ def run_property(prop, tier, seed, only=None, dump=None):
         locked = set(lk.get('obligations', []))
         kinds = {o.name: o.kind for o in res.obls}       # names of enumerated cases carry a [case] prefix: classify by kind
         sem = [n for n in still if U.is_semantic(kinds.get(n, n)) and n in locked]
-        if sem:
+        edited = bool(res.source) and lk.get('sha256') not in (None, res.source['sha256'])
+        guessed = any(isinstance(nt, str) and nt.startswith('loop invariants matched by position') for nt in getattr(res, 'notes', []))
+        inv_init_lost = any(kinds.get(n, n).startswith('inv') and '.init' in kinds.get(n, n) for n in still)
+        if sem and edited and (guessed or inv_init_lost):
+            # the text was edited and a loop invariant does not even hold on entry to its loop (or had to be matched to a loop by
+            # position): the ANNOTATION no longer fits the text, so the obligations that depend on it say nothing about the
+            # property -- and no failing input was found on the real code.  Undecided, not a violation.
+            undecided.append('%s: loop invariants no longer fit the edited text (%s); nothing reproduced natively'
+                             % (u.short, ', '.join(n for n in still if kinds.get(n, n).startswith('inv'))[:200] or 'matched by position'))
+        elif sem:
             solver_out = {n: [o.as_dict() for o in res.obls if o.name == n][0] for n in sem}
             path = write_replay(prop, u.short, dict(property=prop, unit=u.short, qualname=u.key,
                                                     obligation=sem[0], failing_obligations=failing_desc,
